@@ -795,6 +795,7 @@ func init() {
 		end := []string{"serial", "announced", "log", "converge", "applied", "issued", "reference", "snapshots"}
 		same2 := e2sched{E2: e2p{Clients: 2, Type: "counter", Prefix: "joined", Tolerant: true}, Setup: []pact{inc(0), inc(1)}, Conc: []pact{{Op: "sync", R: 0}, {Op: "sync", R: 1}}, AtEnd: end}
 		same3 := e2sched{E2: e2p{Clients: 3, Type: "counter", Prefix: "joined", Tolerant: true}, Setup: []pact{inc(0), inc(1), inc(2)}, Conc: []pact{{Op: "sync", R: 0}, {Op: "sync", R: 1}, {Op: "sync", R: 2}}, AtEnd: end}
+		same4 := e2sched{E2: e2p{Clients: 4, Type: "counter", Prefix: "joined", Tolerant: true}, Setup: []pact{inc(0), inc(1), inc(2), inc(3)}, Conc: []pact{{Op: "sync", R: 0}, {Op: "sync", R: 1}, {Op: "sync", R: 2}, {Op: "sync", R: 3}}, AtEnd: end}
 		diff2 := e2sched{E2: e2p{Clients: 2, Type: "counter", Keys: []string{"k1", "k2"}, Prefix: "joined", Exchange: "pack", Tolerant: true}, Setup: []pact{inc(0), {Op: "inc", R: 1, P: 1, T: "k2|"}}, Conc: []pact{{Op: "sync", R: 0}, {Op: "sync", R: 1}}, AtEnd: end}
 		// both clients hold both datatypes and sync them in one message each, naming them in opposite orders (the order of the
 		// packs in a message is Go's map order): the handlers of one message must not wait for each other
@@ -823,7 +824,7 @@ func init() {
 		} else {
 			p.BudgetS = 3400
 			p.Runs = []Run{{Name: "one-request-held-70-other-keys-served", Check: "C12", Kind: "lockbuckets", Cases: true, Params: map[string]interface{}{}, Shards: 3},
-				schedRun("same-key-2-caller-gives-up-b3", 3, giveup2, 0), schedRun("fresh-key-2-caller-gives-up-b3", 3, giveupFresh, 0), schedRun("patch-vs-syncs-b3", 3, patchSync, 0), schedRun("connect-vs-syncs-b3", 3, connectSync, 0), schedRun("same-key-2-b4", 4, same2, 0), schedRun("different-keys-2-b3", 3, diff2, 0), schedRun("two-keys-crossed-order-b3", 3, crossed2, 0), schedRun("fresh-key-2-b4", 4, fresh, 0), schedRun("same-key-3-b3", 3, same3, 0)}
+				schedRun("same-key-2-caller-gives-up-b3", 3, giveup2, 0), schedRun("fresh-key-2-caller-gives-up-b3", 3, giveupFresh, 0), schedRun("patch-vs-syncs-b3", 3, patchSync, 0), schedRun("connect-vs-syncs-b3", 3, connectSync, 0), schedRun("same-key-2-b4", 4, same2, 0), schedRun("different-keys-2-b3", 3, diff2, 0), schedRun("two-keys-crossed-order-b3", 3, crossed2, 0), schedRun("fresh-key-2-b4", 4, fresh, 0), schedRun("same-key-3-b3", 3, same3, 0), schedRun("same-key-4-b1", 1, same4, 0)}
 		}
 		return p
 	}
@@ -990,6 +991,9 @@ func init() {
 		} else {
 			p.Runs = append(p.Runs, schedRun("realtime-counter-slow-listener-b2", 2, rtl("counter"), 0), schedRun("realtime-list-slow-listener-b1", 1, rtl("list"), 0))
 			p.Runs = append(p.Runs, schedRun("realtime-counter-2-b3", 3, rt(2, "counter", true), 0), schedRun("realtime-list-2-b2", 2, rt(2, "list", true), 0), schedRun("realtime-counter-3-b2", 2, rt(3, "counter", false), 0))
+			p.Runs = append(p.Runs, schedRun("realtime-counter-2ops-listener-b2", 2, rt2("counter"), 0), schedRun("realtime-counter-2ops-eager-spawn-b2", 2, rt2e("counter"), 0),
+				schedRun("realtime-map-2-b2", 2, rt(2, "map", true), 0), schedRun("realtime-doc-2-b2", 2, rt(2, "doc", true), 0),
+				schedRun("realtime-counter-4-b1", 1, rt(4, "counter", false), 0), schedRun("realtime-counter-5-b1", 1, rt(5, "counter", false), 0))
 		}
 		return p
 	}
